@@ -172,10 +172,13 @@ class World:
                 frame.framer.done = True
             elif ctx == "enter" and k == "bid":
                 self.bid(frame.framer, it[1], it[2])
-            elif ctx == "enter" and k == "put":
-                self.env[it[1]] = it[2]
-            elif ctx == "recur" and k == "inc":
-                self.env[it[1]] = self.env[it[1]] + it[2]
+            elif k in ("put", "inc", "copy") and (it[3] if len(it) > 3 else "enter") == ctx:
+                if k == "put":
+                    self.env[it[1]] = it[2]
+                elif k == "inc":
+                    self.env[it[1]] = self.env[it[1]] + it[2]
+                else:
+                    self.env[it[2]] = self.env[it[1]]
 
     def bid(self, framer, control, target):
         t = framer if target == "me" else self.framers[target]
@@ -237,7 +240,11 @@ class World:
             k = it[0]
             if k == "rec" and it[1] == "precur":
                 self.log.append((framer.name, frame.name, "precur"))
-            elif k == "go":
+            elif k in ("go", "timeout", "repeat"):
+                if k == "timeout":
+                    it = ("go", "next", [("elapsed", ">=", it[1])])
+                elif k == "repeat":
+                    it = ("go", "next", [("recurred", ">=", it[1])])
                 if it[2] and not self.cond(it[2], framer):
                     continue
                 far = framer.frames[it[1]] if it[1] != "next" else self.next_frame(framer, frame)
